@@ -187,7 +187,11 @@ def check_property(prop, tier="quick", seed=0, jobs=16):
             kf = _known_match(known, prop, "kani", k["harness"], fc["desc"])
             (known_hits if kf else violations).append(dict(item, known=kf))
 
-    # ---------------- replay files for violations
+    # ---------------- replay files for violations (files of earlier runs of this property are dropped:
+    # the directory always describes the latest run; known findings keep theirs under findings/)
+    import glob
+    for old in glob.glob(os.path.join(REPLAYS, f"{prop}-*.json")):
+        os.remove(old)
     out_lines = []
     seen_units = set()
     for v in violations:
